@@ -104,6 +104,9 @@ Definition prim_core (types : option (list string)) (fmt : string) : score :=
 
 Definition itoa (n : nat) : string := NilZero.string_of_uint (Nat.to_uint n).
 
+Definition has_key {A} (k : string) (l : list (string * A)) : bool :=
+  match assoc k l with Some _ => true | None => false end.
+
 Section DEEP.
   Variable parse_int64 parse_int32 : string -> option Z.
   Variable parse_float : string -> option float.
@@ -180,7 +183,7 @@ Section DEEP.
                 match ap with
                 | None => BOk (PO m)
                 | Some aps =>
-                    match obj_loop (fun k (_ : ptree) => build params aps mk k) objp m with
+                    match obj_loop (fun k (_ : ptree) => if has_key k props then BOk PNil else build params aps mk k) objp m with
                     | Some m' => BOk (PO m')
                     | None => BErr
                     end
